@@ -186,6 +186,8 @@ class WindowedClickThroughRate(
         Args:
             metrics (Iterable[Metric]): metric instances whose states are to be merged.
         """
+        # `metrics` may be a one-shot iterable; it is walked more than once below
+        metrics = list(metrics)
         merge_max_num_updates = self.max_num_updates
         for metric in metrics:
             merge_max_num_updates += metric.max_num_updates
